@@ -972,10 +972,7 @@ func (em *emitter) emitUnaryOp(expr *ast.UnaryOperator, reg int8, regType reflec
 			// Deference the pointer to check for "invalid memory address"
 			// errors, then discard the result.
 			em.fb.enterStack()
-			pointedElemType := regType.Elem()
-			pointer := em.emitExpr(operand, pointedElemType)
-			dst := em.fb.newRegister(pointedElemType.Kind())
-			em.changeRegister(false, -pointer, dst, pointedElemType, pointedElemType)
+			em.emitExpr(operand, regType.Elem())
 			em.fb.exitStack()
 			// The pointer is valid, so &*a is equivalent to a.
 			em.emitExprR(operand.Expr, regType, reg)
